@@ -48,18 +48,20 @@ CaseResult body(Chooser& ch, Stats* st) {
   QuietStderr q;
   FitGenOpts fo; fo.max_ndim = 3; fo.max_order = 3; fo.max_coeff = 48; fo.max_rows = 400; fo.smoothing_zero_ok = false;
   FitProblem p = gen_fit_problem(ch, fo);
-  p.single_smooth = p.single_porder = false;
   uint32_t nd = p.ndim;
   uint32_t monodim = ch.coin(1, 4) ? (uint32_t)ch.draw(0, nd - 1) : Table::no_monodim;
   if (monodim != Table::no_monodim) for (uint32_t d = 0; d < nd; d++) if (p.order[d] == 0) monodim = Table::no_monodim;
   Args a = from_problem(p, monodim);
+  // scalar (length-1) smoothing / penalty containers, as the C++ interface allows
+  if (p.single_smooth) a.smooth.resize(1);
+  if (p.single_porder) a.porder.resize(1);
   int ninv = ch.coin(1, 5) ? 0 : 1 + (int)ch.draw(0, 2);
   bool must_reject = false, penalty_above = false, c_ok = true;
   std::vector<std::string> applied;
   for (int k = 0; k < ninv; k++) {
     int kind = (int)ch.draw(0, 13);
     uint32_t d = (uint32_t)ch.draw(0, nd - 1);
-    if (kind >= 6 && (d >= a.knots.size() || d >= a.coords.size() || d >= a.order.size() || d >= a.porder.size() || d >= a.ranges.size())) continue;  // an earlier invalidation removed that entry
+    if (kind >= 6 && (d >= a.knots.size() || d >= a.coords.size() || d >= a.order.size() || a.porder.empty() || d >= a.ranges.size())) continue;  // an earlier invalidation removed that entry
     switch (kind) {
       case 0: { int m = (int)ch.draw(0, 2); if (m == 0) a.weights.push_back(1.0); else if (m == 1 && !a.weights.empty()) a.weights.pop_back(); else a.weights.clear(); applied.push_back("weights_length"); must_reject = true; c_ok = false; break; }
       case 1: { if (ch.coin(1, 2) || a.coords.empty()) a.coords.push_back(std::vector<double>{0.0, 1.0}); else a.coords.pop_back(); applied.push_back("coords_outer_length"); must_reject = true; c_ok = false; break; }
@@ -72,7 +74,12 @@ CaseResult body(Chooser& ch, Stats* st) {
       case 8: { auto& k = a.knots[d]; if (k.size() < 2) break; int m = (int)ch.draw(0, 1); if (m == 0) std::swap(k[ch.draw(0, k.size() - 2)], k[k.size() - 1]); else std::reverse(k.begin(), k.end()); if (std::is_sorted(k.begin(), k.end())) break; applied.push_back("knots_unsorted"); must_reject = true; break; }
       case 9: { auto& k = a.knots[d]; uint32_t o = a.order[d]; size_t want[] = {(size_t)o + 1, (size_t)o, 1, 0}; k.resize(std::min(k.size(), want[ch.draw(0, 3)])); applied.push_back("too_few_knots"); must_reject = true; break; }
       case 10: { static const uint32_t big[] = {6, 50, 0x80000000u, 0xffffffffu}; a.order[d] = big[ch.draw(0, 3)]; if (a.knots[d].size() >= 2 * (uint64_t)a.order[d] + 2) break; applied.push_back("huge_order"); must_reject = true; break; }
-      case 11: { a.porder[d] = a.order[d] + 1 + (uint32_t)ch.draw(0, 2); applied.push_back("penalty_above_order"); penalty_above = true; break; }
+      case 11: {
+        if (a.porder.size() == 1) {  // shared penalty order: above the order of SOME dimension (preferably not the first one)
+          uint32_t mn = a.order[0]; size_t which = 0; for (size_t e = 0; e < a.order.size(); e++) if (a.order[e] < mn) { mn = a.order[e]; which = e; }
+          a.porder[0] = mn + 1 + (uint32_t)ch.draw(0, 1); applied.push_back(which == 0 ? "penalty_above_order" : "penalty_above_order_shared_later_dim");
+        } else { a.porder[d < a.porder.size() ? d : 0] = a.order[d] + 1 + (uint32_t)ch.draw(0, 2); applied.push_back("penalty_above_order"); }
+        penalty_above = true; break; }
       case 12: { static const uint32_t md[] = {0, 1, 0xfffffffeu}; uint32_t m = md[ch.draw(0, 2)]; a.monodim = m == 0xfffffffeu ? m : nd + m; applied.push_back("monodim_out_of_range"); must_reject = true; break; }
       default: break;  // no-op draw
     }
@@ -91,7 +98,7 @@ CaseResult body(Chooser& ch, Stats* st) {
   }
   if (a.monodim != Table::no_monodim && a.monodim >= nd) must_reject = true;
   penalty_above = false;
-  if (a.porder.size() == nd && a.order.size() == nd) for (uint32_t d = 0; d < nd; d++) if (a.porder[d] > a.order[d]) penalty_above = true;
+  if ((a.porder.size() == nd || a.porder.size() == 1) && a.order.size() == nd) for (uint32_t d = 0; d < nd; d++) if (a.porder[a.porder.size() == 1 ? 0 : d] > a.order[d]) penalty_above = true;
   bool via_c = c_ok && a.coords.size() == nd && ch.coin(1, 4);
   // the C interface requires smoothing/penalty arrays of length ndim
   if (a.smooth.size() != nd || a.porder.size() != nd || a.order.size() != nd || a.knots.size() != nd) via_c = false;
@@ -125,9 +132,10 @@ CaseResult body(Chooser& ch, Stats* st) {
     if (threw) { if (st) st->label("penalty_above_order:rejected"); if (t.get_ndim() != 0) r.fail = "table changed although fit rejected a penalty order above the spline order"; return r; }
     // accepted: must act as a vanishing penalty in that dimension
     Args ref = from_problem(p, monodim);
-    for (uint32_t d = 0; d < nd; d++) if (a.porder[d] > a.order[d]) ref.smooth[d] = 0;
+    if (ref.smooth.size() == 1) ref.smooth.assign(nd, ref.smooth[0]);
+    for (uint32_t d = 0; d < nd; d++) if (a.porder[a.porder.size() == 1 ? 0 : d] > a.order[d]) ref.smooth[d] = 0;
     bool wellposed = true;
-    { FitProblem p0 = p; for (uint32_t d = 0; d < nd; d++) if (a.porder[d] > a.order[d]) p0.smooth[d] = 0; DenseSys S = assemble_reference(p0); std::vector<LD> L; if (!cholesky_ld(S.A, S.n, L) || !(cond_estimate(S.A, L, S.n) < 1e5L)) wellposed = false; }
+    { FitProblem p0 = p; for (uint32_t d = 0; d < nd; d++) if (a.porder[a.porder.size() == 1 ? 0 : d] > a.order[d]) p0.smooth[d] = 0; DenseSys S = assemble_reference(p0); std::vector<LD> L; if (!cholesky_ld(S.A, S.n, L) || !(cond_estimate(S.A, L, S.n) < 1e5L)) wellposed = false; }
     if (!wellposed || monodim != Table::no_monodim) { if (st) st->label("penalty_above_order:accepted_unchecked"); return r; }
     Table tr; std::string w;
     if (call_fit(tr, ref, false, w)) { r.fail = "reference fit with zero smoothing threw: " + w; return r; }
